@@ -419,6 +419,30 @@ func ruleC07(c *Ctx) {
 			}
 		}
 		okc := len(names) > 0 && c.P.withinOnly(s.Caller, allowNames(names...))
+		if !okc && shortName(s.Callee) == "(*types.EncryptedAssertion).DecryptBytes" && isPublicFn(s.Caller) {
+			args := s.Instr.Common().Args
+			// (a) an exported helper of the type that forwards its caller's certificate: same class as Decrypt
+			if recv := s.Caller.Signature.Recv(); recv != nil && typeStr(derefT(recv.Type())) == "types.EncryptedAssertion" && len(args) == 2 {
+				if p, isParam := args[1].(*ssa.Parameter); isParam && p.Parent() == s.Caller {
+					okc = true
+				}
+			}
+			// (b) an exported provider operation that decrypts with the certificate getDecryptCert selected, on every path
+			if !okc && len(s.Caller.Params) > 0 && typeSym(s.Caller.Params[0].Type()) == "SP" {
+				if r := c.kernelFn(s.Caller, "*", "-(*SAMLServiceProvider).getDecryptCert", "-types.(*EncryptedAssertion).DecryptBytes"); r != nil {
+					seen, good := 0, true
+					for _, t := range r.Terms {
+						for _, e := range t.calls("(*types.EncryptedAssertion).DecryptBytes") {
+							seen++
+							if len(e.Args) < 2 || ap(e.Args[1]) != "(*SAMLServiceProvider).getDecryptCert(SP)#0" {
+								good = false
+							}
+						}
+					}
+					okc = seen > 0 && good
+				}
+			}
+		}
 		c.check(okc, "C07-R6", shortFn(s.Caller), "call "+shortName(s.Callee), c.P.InstrPos(s.Instr), "enumerated caller", "decrypt routine called from an unanalysed site")
 	})
 	c.count("C07-R6/decrypt-call-sites", n)
